@@ -28,7 +28,7 @@ RULE = ("batdata generator (1-5 groups with 1-3 batteries behind 1-4 shared inve
         "ordered bounds; probes = the four advertised bounds, +-1 W around each, +-0.001 W, random interior. distinct = "
         "canonical case JSON; non-trivial = >=2 groups or a shared-inverter/shared-battery group, and at least one "
         "probe inside and one outside the advertised bounds")
-REQUIRED_BUCKETS = ["battery-group-outside-the-pool-present", "group-with-one-battery-not-working",
+REQUIRED_BUCKETS = ["set-points-of-an-accepted-inside-probe-judged", "battery-group-outside-the-pool-present", "group-with-one-battery-not-working",
                     "probe-inside-accepted", "probe-outside-rejected", "shared-inverters(n bat:1 inv)",
                     "shared-batteries(1 bat:n inv)", "nonzero-exclusion", "adjust_power=True", "adjust_power=False",
                     "probe-on-bound", "irregular-group(batteries with different inverter sets)"]
@@ -155,9 +155,11 @@ async def _drive(case: dict[str, Any], probes: list[float], out: dict[str, Any])
         for adj in (True, False):
             req = Request(power=Power.from_watts(p), component_ids=set(all_bats), adjust_power=adj)
             distmon._stage.clear()  # noqa: SLF001
+            api.calls.clear()
             await mgr.distribute_power(req)
             res = res_rx.consume() if res_rx._q else None  # noqa: SLF001
             out["results"].append((p, adj, res))
+            out["calls"].append([(c["id"], c["watts"]) for c in api.calls])
             out["hook"].append([] if case.get("irregular") else
                                distmon.excl_hook_mismatch(case, distmon._stage.get("multi_in"), p > 0))  # noqa: SLF001
     await mgr.stop()
@@ -208,7 +210,7 @@ def check(case: dict[str, Any], rec: Any) -> None:
         rec.violation("advertised-exclusion-below-sum-of-group-min-powers",
                       {"advertised_exclusion": [el, eu], "sum_min_power_consume": min_up, "sum_min_power_supply": min_dn})
 
-    out: dict[str, Any] = {"results": [], "hook": []}
+    out: dict[str, Any] = {"results": [], "hook": [], "calls": []}
     distmon.install()
     run_virtual(lambda: _drive(case, probes, out))
     for (p, adj, _res), bad in zip(out["results"], out["hook"]):
@@ -218,6 +220,24 @@ def check(case: dict[str, Any], rec: Any) -> None:
             # inverter's own exclusion bound (hooked argument of the split stage)
             rec.violation("distribution-works-with-an-exclusion-bound-that-is-not-the-inverter's-own",
                           {"probe": p, "adjust_power": adj, "mismatch": bad})
+            break
+    # "... so it can be distributed without entering any exclusion zone": no set-point of an accepted probe lies
+    # strictly inside the commanded inverter's own exclusion zone
+    inv_excl = {_iid(case, g, j): (i["el"], i["eu"]) for g, grp in enumerate(case["groups"]) for j, i in enumerate(grp["invs"])}
+    in_c01_domain = batdata.consistent(case) and not case.get("irregular")  # (group minimum power <= group inclusion bound)
+    for (p, adj, res), calls in zip(out["results"], out["calls"]):
+        if isinstance(res, (OutOfBounds, Error)) or res is None or not in_c01_domain:
+            continue
+        if not ((Power.from_watts(p) in sb) or (il <= p <= iu and (p <= el or p >= eu))):
+            continue
+        rec.bucket("set-points-of-an-accepted-inside-probe-judged")
+        rec.count("set_points_checked", len(calls))
+        bad_sp = [(i, w_) for i, w_ in calls if i in inv_excl and abs(w_) > 1e-9
+                  and inv_excl[i][0] + 1e-9 < w_ < inv_excl[i][1] - 1e-9]
+        if bad_sp:
+            rec.violation("accepted-power-distributed-into-an-inverter-exclusion-zone",
+                          {"probe": p, "adjust_power": adj, "set_points": calls,
+                           "inside": [{"inverter": i, "watts": w_, "exclusion": list(inv_excl[i])} for i, w_ in bad_sp]})
             break
     n_in = n_out = 0
     for p, adj, res in out["results"]:
